@@ -176,6 +176,9 @@ pub fn laps() -> Vec<Lap> {
         Lap { three_readers_every: 0, name: "bucket-delete-with-reader-held-for-a-stretch", reopen_every: 0, reader_stretch: Some((500, 25)), kind: 2 },
         Lap { three_readers_every: 0, name: "fill-320-keys-delete-all-reopen (free list longer than one page)", reopen_every: 2, reader_stretch: None, kind: 3 },
         Lap { three_readers_every: 0, name: "fill-320-keys-delete-all-reopen-every-7", reopen_every: 7, reader_stretch: None, kind: 3 },
+        Lap { three_readers_every: 0, name: "modify-delete-recreate-refill-a-bucket-in-one-transaction", reopen_every: 50, reader_stretch: None, kind: 4 },
+        Lap { three_readers_every: 0, name: "long-keys-overwrite (multi-page branch and leaf pages)", reopen_every: 0, reader_stretch: None, kind: 5 },
+        Lap { three_readers_every: 0, name: "long-keys-overwrite-reopen-every-40", reopen_every: 40, reader_stretch: None, kind: 5 },
         Lap { three_readers_every: 60, name: "variable-size-with-three-overlapping-readers-every-60", reopen_every: 0, reader_stretch: None, kind: 1 },
         Lap { three_readers_every: 45, name: "fixed-size-with-three-overlapping-readers-every-45", reopen_every: 0, reader_stretch: None, kind: 0 },
     ]
@@ -186,6 +189,22 @@ fn lap_ops(kind: u8, i: usize) -> Vec<OpSpec> {
     if kind == 3 {
         // even: insert a block of 320 x 300 B (about 130 pages); odd: delete it again
         return if i % 2 == 0 { (0..320).map(|j| OpSpec::put(&["lap"], &format!("blk{:03}", j), "b*300")).collect() } else { (0..320).map(|j| OpSpec::del(&["lap"], &format!("blk{:03}", j))).collect() };
+    }
+    if kind == 4 {
+        // a committed bucket is modified, deleted, created again under the same name and refilled,
+        // all in one transaction
+        let mut v = vec![OpSpec::bucket("goc", &["lap"], "sub"), OpSpec::put(&["lap", "sub"], "touch", "t*40"), OpSpec::bucket("delb", &["lap"], "sub"), OpSpec::bucket("create", &["lap"], "sub")];
+        for j in 0..8 {
+            v.push(OpSpec::put(&["lap", "sub"], &format!("r{}", j), if (i + j) % 3 == 0 { "c*900" } else { "b*300" }));
+        }
+        return v;
+    }
+    if kind == 5 {
+        // 24 keys of 600 bytes (page size 1024): leaves and branches that occupy several pages
+        if i == 0 {
+            return (0..24).map(|j| OpSpec::put(&["lap"], &format!("L{:02}*600", j), "b*300")).collect();
+        }
+        return vec![OpSpec::put(&["lap"], &format!("L{:02}*600", (i * 7) % 24), if i % 2 == 0 { "b*300" } else { "h*310" }), OpSpec::put(&["lap"], &format!("L{:02}*600", (i * 5 + 3) % 24), "b*300")];
     }
     match kind {
         0 => vec![OpSpec::put(&["lap"], &k, "f*200"), OpSpec::put(&["lap"], &format!("key{:02}", (i * 3 + 1) % 20), "f*200")],
